@@ -79,10 +79,12 @@ def collection_rules(ck, repo):
         for c in sel_classes:
             ck.ob(f"collect_fields has an isinstance arm for selection kind {c}", c in arm_types, collect, loop,
                   construct=f"arm:{c}", detail=f"arms found: {sorted(arm_types)}")
+        rec_kinds = _kinds_that_recurse(collect, var)
         for name, (body, ifn) in arm_types.items():
             effects = [n for s in body for n in ast.walk(s) if isinstance(n, ast.Call)
                        and callee_last(n) in ("append", "collect_fields")]
-            ck.ob(f"arm {name} performs a collecting effect", bool(effects), collect, ifn, construct=f"arm-effect:{name}")
+            # a fragment kind may select its fragment in its arm and recurse in a tail shared with the other kind: judged on paths
+            ck.ob(f"arm {name} performs a collecting effect", bool(effects) or name in rec_kinds, collect, ifn, construct=f"arm-effect:{name}")
 
     # the three collecting effects
     def arm_body(kind):
@@ -192,10 +194,13 @@ def collection_rules(ck, repo):
 
     # ---------------------------------------------------------------- R3
     with ck.rule("R3"):
+        rec_kinds3 = _kinds_that_recurse(collect, var)
         for kind, names in (("FieldNode", ("append",)), ("InlineFragmentNode", ("collect_fields",)),
                             ("FragmentSpreadNode", ("collect_fields",))):
             body, ifn = arm_body(kind)
             effs = effects_in(body, names)
+            if not effs and kind in rec_kinds3:
+                continue   # the recursion sits in a tail shared by both fragment kinds: its gate is decided on paths (R4, gate:<kind>)
             if not effs:
                 raise AnalysisError(f"no collecting effect in arm {kind}")
             for e in effs:
@@ -348,6 +353,20 @@ def possible_kinds(row, subject, universe):
         else:
             poss -= classes
     return poss
+
+
+def _kinds_that_recurse(collect, var):
+    """Selection kinds for which some path through one selection recurses into collect_fields."""
+    from ..pathtab import outcome_rows
+    out = set()
+    for r in outcome_rows(FuncView(collect)):
+        if sum(1 for nd in r["trace"].nodes if nd.kind == "for") != 2:
+            continue
+        kinds = possible_kinds(r, var, ("FieldNode", "InlineFragmentNode", "FragmentSpreadNode"))
+        if len(kinds) == 1 and any(nd.kind == "stmt" and nd.ast is not None and any(isinstance(c, ast.Call) and callee_last(c) == "collect_fields" for c in ast.walk(nd.ast))
+                                   for nd in r["trace"].nodes):
+            out |= kinds
+    return out
 
 
 def _fragment_rows(ck, collect, var):
